@@ -301,6 +301,11 @@ Definition mon_C14 : monitor := fun L s st s' =>
    | OSendFrom ta _ _ p _ (HSwap _ _ _ _ _) =>
        if mem_addr p (existing_pairs L s)
        then asset_eqb (s_pair_asset L s p 0) (AToken ta) || asset_eqb (s_pair_asset L s p 1) (AToken ta) else true
+   (* a Receive envelope delivered to the router directly carries no authority: only a well-formed route hook, relayed by a
+      cw20 the sender actually holds, can succeed; anything else in the payload (e.g. the router's internal messages) cannot *)
+   | ORouterReceive _ _ _ HGarbage => false
+   | ORouterReceive _ _ _ HWithdraw => false
+   | ORouterReceive _ _ _ (HSwap _ _ _ _ _) => false
    | ORouterOp c _ _ _ _ => c =? 1
    | ORouterAssertMin c _ _ _ _ => c =? 1
    | _ => true
@@ -486,6 +491,25 @@ Definition mon_C06 : monitor := fun L s st s' =>
    | _ => true
    end, false).
 
+(* C15 at system level: a provision that SUCCEEDED with a tolerance given satisfies both bounds, evaluated on the
+   deposits the message declared and the reserves the pair held just before (net of the caller's own native deposit,
+   which the snapshot before the transaction does not contain anyway); a tolerance above 100% never succeeds *)
+Definition mon_C15 : monitor := fun L s st s' =>
+  if negb (hs_ok st) then (fail_unchanged st, false) else
+  (match hs_op st with
+   | OProvide p c funds l0 n0 l1 n1 (Some t) _ =>
+       let a0 := s_pair_asset L s p 0 in
+       let d0 := if asset_eqb l0 a0 then n0 else n1 in
+       let d1 := if asset_eqb l0 a0 then n1 else n0 in
+       let '(r0, r1) := pair_reserves L s p in
+       let lp := s_pair L s p 7 in
+       if s_supply L s lp =? 0 then t <=? D else
+       (t <=? D) &&
+       (d0 * (D - t) * r1 <? r0 * d1 * D + 2 * d1 * r1) &&
+       (d1 * (D - t) * r0 <? r1 * d0 * D + 2 * d0 * r0)
+   | _ => true
+   end, false).
+
 Definition mon_generic : monitor := fun L s st s' => (fail_unchanged st, false).
 
 (* C10 at system level: a swap that SUCCEEDED with limits given satisfies the guard's bounds for the
@@ -505,8 +529,28 @@ Definition guard_sound (bp ms : option N) (offer ret spread od rd : N) : bool :=
           end
       end
   end.
+(* the completeness half, for the spread-only mode: a direct swap that the pair refused WITH ITS MAX-SPREAD ERROR (the
+   driver reports the class of the error text: 1 = max spread, 2 = max slippage, 0 = anything else) must really have a
+   spread ratio above the limit, the amounts being what compute_swap gives on the reserves the pair held *)
+Definition spread_reject_justified L s (p : addr) (offer : asset) (amount ms : N) : bool :=
+  let a0 := s_pair_asset L s p 0 in let a1 := s_pair_asset L s p 1 in
+  let ask := if asset_eqb offer a0 then a1 else a0 in
+  match compute_swap (s_asset_bal L s offer p) (s_asset_bal L s ask p) amount (s_pair L s p 10) with
+  | Ok (n, sp, _) => ms * (n + sp) <? sp * D
+  | Err _ => true
+  end.
 Definition mon_C10 : monitor := fun L s st s' =>
-  if negb (hs_ok st) then (fail_unchanged st, false) else
+  if negb (hs_ok st) then
+    (fail_unchanged st &&
+     match hs_op st, hs_extras st with
+     | OSwap p _ [(d, k)] (ANative d') amount None (Some ms) _, [1] =>
+         if (d =? d') && (k =? amount) && mem_addr p (existing_pairs L s)
+         then spread_reject_justified L s p (ANative d') amount ms else true
+     | OSend ta _ p k (HSwap (AToken tb) amount None (Some ms) _), [1] =>
+         if (ta =? tb) && (k =? amount) && mem_addr p (existing_pairs L s)
+         then spread_reject_justified L s p (AToken ta) amount ms else true
+     | _, _ => true
+     end, false) else
   (let chk (p : addr) (offer : asset) (bp ms : option N) :=
      match hs_extras st with
      | [a; ret; spread; _] =>
